@@ -11,7 +11,7 @@
 (* at most MaxRej rejected calls.  Simulation mode (-simulate): random    *)
 (* walks of the same machine.  Behaviours are printed as JSON at MaxLen.  *)
 EXTENDS Integers, Sequences, TLC, Json, Sections
-CONSTANTS MaxLen, MaxRej, NEnc, NVar
+CONSTANTS MaxLen, MaxRej, NEnc, NVar, ContentEnc   \* ContentEnc: do content calls vary their encoding argument?
 VARIABLES prev, hist, nrej
 vars == <<prev, hist, nrej>>
 Ops == {"change", "file", "preamble", "meta", "diff"}
@@ -25,7 +25,8 @@ Step(op, e, v) ==
   /\ hist' = Append(hist, [op |-> op, e |-> e, v |-> v, ok |-> ok, st |-> IF ok THEN c ELSE prev])
   /\ prev' = IF ok THEN c ELSE prev
   /\ nrej' = IF ok THEN nrej ELSE nrej + 1
-Next == \E op \in Ops, e \in 0..NEnc, v \in 0..NVar : Step(op, e, v)
+Next == \E op \in Ops, v \in 0..NVar :
+          \E e \in (IF op \in {"change", "file"} \/ ContentEnc THEN 0..NEnc ELSE {0}) : Step(op, e, v)
 Spec == Init /\ [][Next]_vars
 Emit == Len(hist) = MaxLen => PrintT(<<"BEH", ToJson(hist)>>)
 =======================================================================
